@@ -57,10 +57,31 @@ def filters : List (String × (Attr → Bool)) :=
    ("nostate", fun a => a.cfg), ("opd+state", fun a => !a.cfg), ("excl-opd-state", fun a => a.cfg),
    ("keep-all", fun _ => true)]
 
+/-- the bodies of the rpcs (input, output) and notifications of module m, labelled as the harness labels their trees:
+    rpcs by name, then notifications by name -/
+def opBodies (j : Json) : List (String × List A) :=
+  let ops := jarr j "ops"
+  let byName (l : List Json) := (l.toArray.qsort fun x y => jstr x "n" < jstr y "n").toList
+  let rpcs := byName (ops.filter fun o => jstr o "k" = "rpc")
+  let notes := byName (ops.filter fun o => jstr o "k" = "notification")
+  (rpcs.flatMap fun o => [("rpc-input urn:m " ++ jstr o "n", (jarr o "in").map loadA),
+                          ("rpc-output urn:m " ++ jstr o "n", (jarr o "out").map loadA)]) ++
+  (notes.map fun o => ("notification urn:m " ++ jstr o "n", (jarr o "in").map loadA))
+
+def dumpAux (label : String) (ks : List CN) : String :=
+  let sorted := ks.toArray.qsort (fun x y => kindStr x.attr.kind ++ " " ++ strOfTok x.attr.name < kindStr y.attr.kind ++ " " ++ strOfTok y.attr.name)
+  " " ++ label ++ "\n" ++ String.join (sorted.toList.map (dumpCN "  "))
+
 def handleFilter (j : Json) : List (String × Json) :=
   let top := (jarr j "top").map loadA
   let feat : FeatEnv := {}
   let all := compile keepAll feat top
+  -- the trees of rpcs and notifications are built like the data tree (config true, current at their roots); they are part
+  -- of the case where the module compiles with them
+  let bodies0 := opBodies j
+  let fullOps := bodies0.map fun (l, b) => (l, compile keepAll feat b)
+  let opsKept := (match all with | .ok _ => true | .error _ => false) && fullOps.all fun (_, r) => match r with | .ok _ => true | .error _ => false
+  let bodies := if opsKept then bodies0 else []
   let head := match all with | .ok _ => "all:ok" | .error e => "all:compile-err " ++ e
   let perFilter (useModel : Bool) := filters.map fun (nm, f) =>
     match all with
@@ -72,9 +93,17 @@ def handleFilter (j : Json) : List (String × Json) :=
       if useModel then
         (match compile f feat top with
          | .error e2 => nm ++ ":compile-err " ++ e2
-         | .ok got => if dumpTop got = dumpTop (pruneKids f full) then nm ++ ":pruned" else nm ++ ":DIFF")
+         | .ok got =>
+           let opsSame := bodies.all fun (l, b) =>
+             match compile f feat b, compile keepAll feat b with
+             | .ok g, .ok fl => dumpAux l g = dumpAux l (pruneKids f fl)
+             | _, _ => false
+           if dumpTop got = dumpTop (pruneKids f full) && opsSame then nm ++ ":pruned" else nm ++ ":DIFF")
       else nm ++ ":pruned"
-  let tail := match all with | .ok full => ["dump:\n" ++ dumpTop full] | .error _ => []
+  let tail := match all with
+    | .ok full => ["dump:\n" ++ dumpTop full ++ String.join (bodies.map fun (l, b) =>
+        match compile keepAll feat b with | .ok ks => dumpAux l ks | .error _ => "")]
+    | .error _ => []
   let m := "\n".intercalate (head :: perFilter true ++ tail)
   let s := "\n".intercalate (head :: perFilter false ++ tail)
   [("m", m), ("s", s)]
